@@ -661,6 +661,78 @@ fn consume_phase<S: MdkStorageProvider + Sync>(st: &S, case: &Case, rep: &mut Ca
     Ok(())
 }
 
+/// K threads, released together, each replace the relay set of one and the same group by a set of
+/// their own (all sets share one relay). Whatever the order, every call succeeds and the group
+/// ends with exactly the set of the call that came last - never a mixture of two.
+fn replace_phase<S: MdkStorageProvider + Sync>(st: &S, case: &Case, rep: &mut CaseReport) -> Result<(), Failure> {
+    let k = case.consumers.min(6) as usize;
+    if k < 2 {
+        return Ok(());
+    }
+    const G: u8 = 6;
+    st.save_group(record(G, 1)).map_err(|e| Failure::new("setup-failed", e.to_string()))?;
+    let rounds: usize = if case.sqlite { 60 } else { 150 };
+    let set_of = |round: usize, t: usize| -> BTreeSet<RelayUrl> {
+        ["shared".to_string(), format!("r{round}-t{t}-a"), format!("r{round}-t{t}-b")].iter().map(|n| RelayUrl::parse(&format!("wss://{n}.g{G}.example.org")).unwrap()).collect()
+    };
+    for round in 0..rounds {
+        let barrier = Barrier::new(k);
+        let tids: std::sync::Mutex<Vec<i32>> = std::sync::Mutex::new(vec![]);
+        let (tx, rx) = std::sync::mpsc::channel::<()>();
+        let results: Vec<Option<Result<(), String>>> = std::thread::scope(|s| {
+            let hs: Vec<_> = (0..k)
+                .map(|t| {
+                    let barrier = &barrier;
+                    let tids = &tids;
+                    let tx = tx.clone();
+                    let mine = set_of(round, t);
+                    s.spawn(move || {
+                        tids.lock().unwrap().push(unsafe { libc::syscall(libc::SYS_gettid) } as i32);
+                        let _done = SendOnDrop(tx);
+                        barrier.wait();
+                        st.replace_group_relays(&gid(G), mine).map_err(|e| e.to_string())
+                    })
+                })
+                .collect();
+            drop(tx);
+            let mut got = 0;
+            let mut waited = 0;
+            while got < k {
+                match rx.recv_timeout(std::time::Duration::from_secs(10)) {
+                    Ok(()) => got += 1,
+                    Err(std::sync::mpsc::RecvTimeoutError::Timeout) => {
+                        waited += 10;
+                        let unfinished: Vec<i32> = tids.lock().unwrap().iter().copied().filter(|t| thread_stat(*t).is_some()).collect();
+                        if !unfinished.is_empty() && unfinished.len() == k - got && all_parked(&unfinished, 15) {
+                            report_deadlock(case, &format!("round {round} of the relay-replacement race: {} of {k} threads never returned from replace_group_relays: all parked, no CPU use for 3 s after {waited} s of waiting", k - got));
+                        }
+                        if waited >= 120 {
+                            println!("inconclusive: watchdog - the relay-replacement race did not finish within 120 s in case {case:?}");
+                            std::process::exit(2);
+                        }
+                    }
+                    Err(_) => break,
+                }
+            }
+            hs.into_iter().map(|h| h.join().ok()).collect()
+        });
+        if results.iter().any(|r| r.is_none()) {
+            return Err(Failure::new("panic", format!("replace_group_relays panicked under concurrent use (round {round})")));
+        }
+        let now: BTreeSet<String> = st.group_relays(&gid(G)).map_err(|e| Failure::new("read-failed", e.to_string()))?.into_iter().map(|r| r.relay_url.to_string()).collect();
+        let ctx = format!("round {round}: {k} threads released together each replace the relay set of one group by their own three relays (one relay in common); results {:?}; afterwards the group lists {now:?}", results.iter().map(|r| r.as_ref().unwrap().clone()).collect::<Vec<_>>());
+        if let Some(Some(Err(e))) = results.iter().find(|r| matches!(r, Some(Err(_)))) {
+            return Err(Failure::new("relay-replacement-race-not-sequential", format!("{ctx}; in every sequential order all calls succeed, one answered {e}")));
+        }
+        let is_one = (0..k).any(|t| set_of(round, t).iter().map(|u| u.to_string()).collect::<BTreeSet<_>>() == now);
+        if !is_one {
+            return Err(Failure::new("relay-replacement-race-not-sequential", format!("{ctx}; every sequential order leaves exactly the set of the call that came last")));
+        }
+    }
+    *rep.counters.entry("relay-replacement-races".into()).or_insert(0) += rounds as u64;
+    Ok(())
+}
+
 /// N threads open the same, not yet existing database path at the same moment. Any sequential
 /// order of these calls lets every one of them succeed and see the same database.
 fn first_open_phase(case: &Case, rep: &mut CaseReport) -> Result<(), Failure> {
@@ -771,11 +843,13 @@ pub fn exec(case: &Case, _mode: Mode) -> Result<CaseReport, Failure> {
         stress(&st, case, &mut rep)?;
         claim_phase(&st, case, &mut rep)?;
         consume_phase(&st, case, &mut rep)?;
+        replace_phase(&st, case, &mut rep)?;
     } else {
         let st = MdkMemoryStorage::default();
         stress(&st, case, &mut rep)?;
         claim_phase(&st, case, &mut rep)?;
         consume_phase(&st, case, &mut rep)?;
+        replace_phase(&st, case, &mut rep)?;
     }
     Ok(rep)
 }
@@ -789,7 +863,7 @@ pub fn main(args: &Args) -> i32 {
     let spec = Spec {
         id: "C19",
         level: "exploration",
-        rule: "randomised stress runs against a sequential specification: per group one writer thread repeats (save_group v, replace_group_relays v, save_group_exporter_secret v, every 8th cycle save_message) with the version embedded in every field and every relay URL; 0..8 reader threads check that every record / by-Nostr-id lookup / relay listing / secret is whole (one version, complete set), never goes backwards for a reader, that listings hold no duplicate or foreign message; 0..4 threads take snapshots of groups while they are written. Afterwards every snapshot is rolled back to and must show versions with record >= relays >= secret >= record-1 (the writer's program order: a state of one instant), other groups untouched. Then 2..6 threads, released together for 40..120 rounds, each save a different new group under one shared Nostr group id: exactly one call per round may succeed and exactly one group may own the id. Then 2..6 threads race on one snapshot of one group for 45..150 rounds (all roll back to it; one rolls back while the others re-take it under the same name; one rolls back while the others release it): results, record version, listing and the content of a surviving snapshot must be what some sequential order of the calls leaves. In a third of the cases 2..12 threads first open one and the same fresh database path at once (unencrypted / caller key / keyring constructor): every open must succeed and all instances must be the same database. Thread counts 2..16, both backends, per-thread yield patterns at SQLite storage ticks; a watchdog turns a proven deadlock (no progress for 20 s, every unfinished thread parked with zero CPU use) into a violation and any other hang into exit 2. Non-trivial = at least two threads and at least one concurrent read; distinct = distinct cases".into(),
+        rule: "randomised stress runs against a sequential specification: per group one writer thread repeats (save_group v, replace_group_relays v, save_group_exporter_secret v, every 8th cycle save_message) with the version embedded in every field and every relay URL; 0..8 reader threads check that every record / by-Nostr-id lookup / relay listing / secret is whole (one version, complete set), never goes backwards for a reader, that listings hold no duplicate or foreign message; 0..4 threads take snapshots of groups while they are written. Afterwards every snapshot is rolled back to and must show versions with record >= relays >= secret >= record-1 (the writer's program order: a state of one instant), other groups untouched. Then 2..6 threads, released together for 40..120 rounds, each save a different new group under one shared Nostr group id: exactly one call per round may succeed and exactly one group may own the id. Then 2..6 threads race on one snapshot of one group for 45..150 rounds (all roll back to it; one rolls back while the others re-take it under the same name; one rolls back while the others release it): results, record version, listing and the content of a surviving snapshot must be what some sequential order of the calls leaves; the same threads then each replace the relay set of one group by a set of their own for 60..150 rounds: every call succeeds and the group ends with exactly one caller's set. In a third of the cases 2..12 threads first open one and the same fresh database path at once (unencrypted / caller key / keyring constructor): every open must succeed and all instances must be the same database. Thread counts 2..16, both backends, per-thread yield patterns at SQLite storage ticks; a watchdog turns a proven deadlock (no progress for 20 s, every unfinished thread parked with zero CPU use) into a violation and any other hang into exit 2. Non-trivial = at least two threads and at least one concurrent read; distinct = distinct cases".into(),
         assumptions: vec![
             "schedule coverage is what the OS scheduler plus injected yields produce; a failure may need several runs to reproduce (the replay command runs a case 5 times)".into(),
             "what concurrent first opens do to the keyring key is judged in C13; here they must all succeed".into(),
